@@ -129,8 +129,14 @@ class Known:
 
 # ------------------------------------------------------------------------------------------------ running a harness on the real code
 
+def _set_age(cfg):
+    from props import common
+    common.AGE = cfg.get('age') if _isinstance(cfg, dict) else None
+
+
 def run_real(prop, R, cfg, conc_inp):
     import warnings
+    _set_age(cfg)
     with warnings.catch_warnings():
         warnings.simplefilter('ignore')
         try:
@@ -217,6 +223,7 @@ def check_config(prop, cfg, ctx, validate=True, want_smt2=0):
     known_hit = set()
 
     def harness():
+        _set_age(cfg)
         try:
             return prop.run(ctx.L, cfg, dict(inp.sym))
         except (Abort, OutOfModel, Undecided, PathCap):
@@ -285,7 +292,7 @@ def check_config(prop, cfg, ctx, validate=True, want_smt2=0):
                         break
                     if not bad:
                         sym_ob = T.eval_under(m, ob)
-                        rec['divergences'].append(dict(obligation=name, inputs=O.jsonable(conc), lifted=_short(sym_ob), real=_short(real_ob)))
+                        rec['divergences'].append(dict(obligation=name, cfg=cfg, inputs=O.jsonable(conc), lifted=_short(sym_ob), real=_short(real_ob)))
                         break
                     kf = ctx.known.match(prop.ID, cfg, conc)
                     v = dict(obligation=name, failed=bad, inputs=O.jsonable(conc), observed=O.jsonable(real_ob), cfg=cfg)
@@ -351,7 +358,7 @@ def _validate_path(prop, cfg, ctx, inp, path, ob, rec, dbl):
         return
     d = O.diff(_strip(sym_ob), _strip(real_ob))
     if d:
-        rec['divergences'].append(dict(obligation='<witness validation>', inputs=O.jsonable(conc), diff=d[:6]))
+        rec['divergences'].append(dict(obligation='<witness validation>', cfg=cfg, inputs=O.jsonable(conc), diff=d[:6]))
     else:
         rec['validated'] += 1
 
